@@ -4,7 +4,7 @@ from __future__ import annotations
 from simkit import oracle, scene
 from simkit.errors import HarnessError, InjectedCrash
 from simkit.util import tb
-from simkit.sim import Sim, draw_sim_config, reset_process_state
+from simkit.sim import Sim, draw_sim_config, park_config, park_profile_config, reset_process_state
 
 PROPERTY = "C01"
 LEVEL = "exploration"
@@ -269,30 +269,7 @@ def run_pipeline(run, sc, race):
     wg = scene.wave_gpts(sc["potential"])
     reset_process_state(scene.knob_overrides(knobs, wg))
 
-    ref = ref_exc = None
-    try:
-        ref = pipeline(sc, lazy=False, max_batch="auto")
-    except (HarnessError, InjectedCrash):
-        raise
-    except Exception as e:  # noqa: BLE001
-        ref_exc = e
-        run.invalid = True
-        run.note("reference_raised")
-
-    subs = []
-    for j in range(2):
-        if race:
-            # shared-state hunting: the same many-block graph under two multi-worker schedules, the first pre-empted at stores
-            # into shared state, the second at random lines (or again at stores)
-            mb = knobs["max_batch"]
-            cfg = draw_sim_config(ch, force_threads=True, allow_recompute=False, write_preempt=True if j == 0 else None)
-        else:
-            mb = knobs["max_batch"] if j == 0 else ch.pick([1, "auto", 2, 4], "max-batch-2")
-            if j == 1:
-                reset_process_state(scene.knob_overrides({**knobs, "chunk_waves": ch.pick([1, None, 4, 2], "chunk-waves-2")}, wg))
-            # a minority of runs are probe runs: tasks are crashed at an arbitrary abTEM line and retried, or re-run on their already
-            # consumed inputs (what a distributed scheduler's retry does); findings of such runs are PROBE lines, never verdicts
-            cfg = draw_sim_config(ch, probes=ch.bool(0.1, "probe-run"))
+    def lazy_subject(j, mb, cfg):
         sim = run.add_sim(Sim(ch, cfg))
         sub = sub_exc = None
         try:
@@ -304,6 +281,55 @@ def run_pipeline(run, sc, race):
         except Exception as e:  # noqa: BLE001
             sub_exc = e
         sc.setdefault("sim", []).append(sim.describe())
+        return sim, sub, sub_exc
+
+    # race family, half of the runs: the lazy computation is the FIRST thing the process does with this scene, so that
+    # module-level state (memos, plans) is cold when the blocks run concurrently; the eager reference comes afterwards
+    early = None
+    if race and ch.bool(0.5, "lazy-first"):
+        sc["lazy_first"] = True
+        early = lazy_subject(0, knobs["max_batch"], draw_sim_config(ch, force_threads=True, allow_recompute=False, write_preempt="park"))
+
+    ref = ref_exc = None
+    try:
+        ref = pipeline(sc, lazy=False, max_batch="auto")
+    except (HarnessError, InjectedCrash):
+        raise
+    except Exception as e:  # noqa: BLE001
+        ref_exc = e
+        run.invalid = True
+        run.note("reference_raised")
+
+    subs = []
+    candidates = 0
+    for j in range(4 if race else 2):
+        if race:
+            # shared-state hunting: the same many-block graph under three multi-worker schedules: (0) a profiling schedule that
+            # counts the stores into objects shared by >= 2 tasks, (1, 3) one task delayed at one of those stores until all others
+            # have run, (2) pre-emption at stores / random lines with heavy-tailed budgets
+            mb = knobs["max_batch"]
+            if j == 0:
+                cfg = park_profile_config(ch)
+            elif j in (1, 3):
+                if j == 3 and not candidates:
+                    break
+                cfg = park_config(ch, candidates) if candidates else draw_sim_config(ch, force_threads=True, allow_recompute=False, write_preempt="park")
+            else:
+                cfg = draw_sim_config(ch, force_threads=True, allow_recompute=False, write_preempt=True)
+        else:
+            mb = knobs["max_batch"] if j == 0 else ch.pick([1, "auto", 2, 4], "max-batch-2")
+            if j == 1:
+                reset_process_state(scene.knob_overrides({**knobs, "chunk_waves": ch.pick([1, None, 4, 2], "chunk-waves-2")}, wg))
+            # a minority of runs are probe runs: tasks are crashed at an arbitrary abTEM line and retried, or re-run on their already
+            # consumed inputs (what a distributed scheduler's retry does); findings of such runs are PROBE lines, never verdicts
+            cfg = draw_sim_config(ch, probes=ch.bool(0.1, "probe-run"))
+        if j == 2 and early is not None:
+            sim, sub, sub_exc = early
+        else:
+            sim, sub, sub_exc = lazy_subject(j, mb, cfg)
+        if race and j == 0:
+            candidates = sim.sched.stats.park_candidates
+            run.note("park_candidates", candidates)
         if (ref_exc is None) != (sub_exc is None):
             who = "lazy" if sub_exc is not None else "eager"
             e = sub_exc or ref_exc
